@@ -78,6 +78,9 @@ PROPS["C01"] = dict(
         "Zrnt.Proofs.C01.M_block_refines_S_partial",
         "Zrnt.Proofs.C01.postSlotTransition_eq",
         "Zrnt.Proofs.C01.stateTransition_eq",
+        "Zrnt.Proofs.C01.processBlock_noOps_eq",
+        "Zrnt.Proofs.C01.ctx_frames",
+        "Zrnt.Proofs.C01.sameCommittees_initiate",
     ],
     modes=[dict(name="c01", stateful=True, max_shrinks=3, nontrivial=_nontrivial),
            dict(name="c01pieces", nontrivial=_nontrivial)],
